@@ -57,6 +57,19 @@ fn preset(start: usize) {
 pub const SHAPES: &[&str] = &["", "@w16", "@w64", "@zst"];
 
 /// Runs in the child. Never returns normally through a clone that should have aborted.
+/// Set by `--unwinding`: the clone is made from a destructor that runs while the thread is
+/// already unwinding from another panic, and that destructor catches whatever the clone raises.
+/// A panic raised there is an ordinary, catchable second unwind -- not an abort.
+pub static WHILE_UNWINDING: std::sync::atomic::AtomicBool = std::sync::atomic::AtomicBool::new(false);
+
+struct OnDrop<G: FnMut()>(G);
+impl<G: FnMut()> Drop for OnDrop<G> {
+    fn drop(&mut self) {
+        (self.0)()
+    }
+}
+struct FirstPanic;
+
 pub fn child(entry: &str, start: usize) -> i32 {
     match entry.split_once('@') {
         None => child_f::<F0>(entry, start),
@@ -84,7 +97,24 @@ fn child_f<F: Family>(entry: &str, start: usize) -> i32 {
             preset(start);
             let before = $count(&h);
             say(&format!("BEFORE-CLONE count={}", before));
-            let r = std::panic::catch_unwind(std::panic::AssertUnwindSafe(|| $clone(&h)));
+            let r = if WHILE_UNWINDING.load(Ordering::Relaxed) {
+                let mut out = None;
+                let _ = std::panic::catch_unwind(std::panic::AssertUnwindSafe(|| {
+                    let _g = OnDrop(|| {
+                        out = Some(std::panic::catch_unwind(std::panic::AssertUnwindSafe(|| $clone(&h))));
+                    });
+                    std::panic::panic_any(FirstPanic);
+                }));
+                match out {
+                    Some(r) => r,
+                    None => {
+                        say("HARNESS-ERROR the unwinding destructor did not run");
+                        return 2;
+                    }
+                }
+            } else {
+                std::panic::catch_unwind(std::panic::AssertUnwindSafe(|| $clone(&h)))
+            };
             match r {
                 Ok(n) => {
                     let after = $count(&h);
